@@ -261,8 +261,17 @@ def run(ctx):
                 if not seeded:
                     # look for an extend/insert into the same set local from an iteration over state_mutations
                     seeded = set_seeded_from_declared(prog, f, setl)
-                detail = "probed set `%s` seeded from declared state_mutations: %s" % (txt[:160], seeded)
-                ok = ok or seeded
+                # ... and must live across *all* data outputs of the solution: it is created outside the
+                # loop over the solution's data outputs (two loop levels above the push: data outputs, mutations)
+                root = M.peel(setl, transparent=False)
+                made = None
+                if root.kind == "call" and root.meta:
+                    for b2, t2 in f.calls():
+                        if t2 is root.meta:
+                            made = b2
+                spans = made is not None and len(M.loops_containing(f, made)) <= len(M.loops_containing(f, bb)) - 2
+                detail = "probed set `%s` seeded from declared state_mutations: %s; created outside the data-output loop (lives across all outputs of the solution): %s" % (txt[:120], seeded, spans)
+                ok = ok or (seeded and spans)
             ctx.ob("R4", "computed-keys-tested-against-declared", ok, f.loc(bb), detail, f)
 
 
